@@ -6,98 +6,7 @@ Import ListNotations.
 Open Scope string_scope.
 Open Scope list_scope.
 
-(** ** Syntactic equality of expressions (constants compared as values) *)
-Definition uop_eqb (a b : uop) : bool :=
-  match a, b with UNot, UNot | UNeg, UNeg | UPos, UPos | UInv, UInv => true | _, _ => false end.
-Definition bop_tag (o : bop) : nat :=
-  match o with BAdd => 0 | BSub => 1 | BMul => 2 | BDiv => 3 | BFloorDiv => 4 | BMod => 5 | BPow => 6 | BLShift => 7
-             | BRShift => 8 | BOr => 9 | BXor => 10 | BAnd => 11 | BMatMul => 12 end.
-Definition cop_tag (o : cop) : nat :=
-  match o with CEq => 0 | CNe => 1 | CLt => 2 | CLe => 3 | CGt => 4 | CGe => 5 | CIs => 6 | CIsNot => 7 | CIn => 8 | CNotIn => 9 end.
-Definition conv_tag (o : conv) : nat := match o with ConvNone => 0 | ConvS => 1 | ConvR => 2 | ConvA => 3 end.
-Definition ckind_tag (o : ckind) : nat := match o with KList => 0 | KGen => 1 | KDict => 2 end.
-
-Fixpoint strs_eqb (a b : list string) : bool :=
-  match a, b with
-  | [], [] => true
-  | x :: r1, y :: r2 => String.eqb x y && strs_eqb r1 r2
-  | _, _ => false
-  end.
-
-(** constants: same value and same kind (True and 1 are different texts) *)
-Definition const_eqb (a b : val) : bool :=
-  match a, b with
-  | VBool x, VBool y => Bool.eqb x y
-  | VBool _, _ | _, VBool _ => false
-  | _, _ => val_eqb a b
-  end.
-
-Fixpoint expr_eqb (a b : expr) {struct a} : bool :=
-  match a, b with
-  | EConst x, EConst y => const_eqb x y
-  | EName x, EName y => String.eqb x y
-  | EAttr e1 x, EAttr e2 y => expr_eqb e1 e2 && String.eqb x y
-  | ESub a1 a2, ESub b1 b2 => expr_eqb a1 b1 && expr_eqb a2 b2
-  | ESlice a1 a2, ESlice b1 b2 => expr_eqb a1 b1 && expr_eqb a2 b2
-  | EOmit, EOmit => true
-  | ECall f1 x1 k1, ECall f2 x2 k2 => expr_eqb f1 f2 && exprs_eqb x1 x2 && kwds_eqb k1 k2
-  | EStar x, EStar y => expr_eqb x y
-  | EUn o1 x, EUn o2 y => uop_eqb o1 o2 && expr_eqb x y
-  | EBin o1 a1 a2, EBin o2 b1 b2 => Nat.eqb (bop_tag o1) (bop_tag o2) && expr_eqb a1 b1 && expr_eqb a2 b2
-  | EBool x1 es1, EBool x2 es2 => Bool.eqb x1 x2 && exprs_eqb es1 es2
-  | ECmp l1 c1, ECmp l2 c2 => expr_eqb l1 l2 && cmps_eqb c1 c2
-  | EIf a1 a2 a3, EIf b1 b2 b3 => expr_eqb a1 b1 && expr_eqb a2 b2 && expr_eqb a3 b3
-  | ENamed t1 x, ENamed t2 y => String.eqb t1 t2 && expr_eqb x y
-  | EFStr p1, EFStr p2 => parts_eqb p1 p2
-  | EList x, EList y => exprs_eqb x y
-  | ETuple x, ETuple y => exprs_eqb x y
-  | EDict x, EDict y => dpairs_eqb x y
-  | EComp k1 a1 a2 g1, EComp k2 b1 b2 g2 =>
-      Nat.eqb (ckind_tag k1) (ckind_tag k2) && expr_eqb a1 b1 && expr_eqb a2 b2 && gens_eqb g1 g2
-  | _, _ => false
-  end
-with exprs_eqb (a b : exprs) {struct a} : bool :=
-  match a, b with
-  | ENil, ENil => true
-  | ECons x r1, ECons y r2 => expr_eqb x y && exprs_eqb r1 r2
-  | _, _ => false
-  end
-with kwds_eqb (a b : kwds) {struct a} : bool :=
-  match a, b with
-  | KNil, KNil => true
-  | KCons n1 x r1, KCons n2 y r2 =>
-      match n1, n2 with Some s1, Some s2 => String.eqb s1 s2 | None, None => true | _, _ => false end
-      && expr_eqb x y && kwds_eqb r1 r2
-  | _, _ => false
-  end
-with cmps_eqb (a b : cmps) {struct a} : bool :=
-  match a, b with
-  | CNil, CNil => true
-  | CCons o1 x r1, CCons o2 y r2 => Nat.eqb (cop_tag o1) (cop_tag o2) && expr_eqb x y && cmps_eqb r1 r2
-  | _, _ => false
-  end
-with parts_eqb (a b : parts) {struct a} : bool :=
-  match a, b with
-  | PNil, PNil => true
-  | PLit s1 r1, PLit s2 r2 => String.eqb s1 s2 && parts_eqb r1 r2
-  | PFmt x c1 r1, PFmt y c2 r2 => expr_eqb x y && Nat.eqb (conv_tag c1) (conv_tag c2) && parts_eqb r1 r2
-  | _, _ => false
-  end
-with dpairs_eqb (a b : dpairs) {struct a} : bool :=
-  match a, b with
-  | DNil, DNil => true
-  | DCons k1 v1 r1, DCons k2 v2 r2 => expr_eqb k1 k2 && expr_eqb v1 v2 && dpairs_eqb r1 r2
-  | _, _ => false
-  end
-with gens_eqb (a b : gens) {struct a} : bool :=
-  match a, b with
-  | GNil, GNil => true
-  | GCons n1 t1 i1 f1 r1, GCons n2 t2 i2 f2 r2 =>
-      strs_eqb n1 n2 && Bool.eqb t1 t2 && expr_eqb i1 i2 && exprs_eqb f1 f2 && gens_eqb r1 r2
-  | _, _ => false
-  end.
-
-(** ** Sub-expressions in pre-order (the harness lists the source text of each in the same order) *)
+(** ** Sub-expressions in pre-order: node [i] of the condition is [nth i (subexprs body)] *)
 Fixpoint subexprs (e : expr) : list expr :=
   e :: match e with
        | EConst _ | EName _ | EOmit => []
@@ -130,45 +39,46 @@ with subexprs_d (ds : dpairs) : list expr :=
 with subexprs_g (gs : gens) : list expr :=
   match gs with GNil => [] | GCons _ _ it ifs r => subexprs it ++ subexprs_l ifs ++ subexprs_g r end.
 
-(** the part of the tree that lies inside some comprehension (its own scope) *)
-Fixpoint inner_exprs (e : expr) : list expr :=
+(** numbers of the nodes in a range *)
+Definition range (i n : nat) : list nat := seq i n.
+
+(** nodes that lie inside some comprehension (a scope of its own), and inside some f-string *)
+Fixpoint inner_nodes (i : nat) (e : expr) : list nat :=
   match e with
   | EConst _ | EName _ | EOmit => []
-  | EAttr e1 _ => inner_exprs e1
-  | ESub a b => inner_exprs a ++ inner_exprs b
-  | ESlice a b => inner_exprs a ++ inner_exprs b
-  | ECall f xs ks => inner_exprs f ++ inner_l xs ++ inner_k ks
-  | EStar e1 => inner_exprs e1
-  | EUn _ e1 => inner_exprs e1
-  | EBin _ a b => inner_exprs a ++ inner_exprs b
-  | EBool _ es => inner_l es
-  | ECmp l cs => inner_exprs l ++ inner_c cs
-  | EIf a b c => inner_exprs a ++ inner_exprs b ++ inner_exprs c
-  | ENamed _ e1 => inner_exprs e1
-  | EFStr ps => inner_p ps
-  | EList es | ETuple es => inner_l es
-  | EDict ds => inner_d ds
-  | EComp _ a b gs => subexprs a ++ subexprs b ++ subexprs_g gs
+  | EAttr e1 _ | EStar e1 | EUn _ e1 | ENamed _ e1 => inner_nodes (S i) e1
+  | ESub a b | ESlice a b | EBin _ a b => inner_nodes (S i) a ++ inner_nodes (S i + size a) b
+  | ECall f xs ks => inner_nodes (S i) f ++ inner_l (S i + size f) xs ++ inner_k (S i + size f + size_l xs) ks
+  | EBool _ es | EList es | ETuple es => inner_l (S i) es
+  | ECmp l cs => inner_nodes (S i) l ++ inner_c (S i + size l) cs
+  | EIf a b c => inner_nodes (S i) a ++ inner_nodes (S i + size a) b ++ inner_nodes (S i + size a + size b) c
+  | EFStr ps => inner_p (S i) ps
+  | EDict ds => inner_d (S i) ds
+  | EComp _ a b gs => range (S i) (size a + size b + size_g gs)
   end
-with inner_l (es : exprs) : list expr :=
-  match es with ENil => [] | ECons e r => inner_exprs e ++ inner_l r end
-with inner_k (ks : kwds) : list expr :=
-  match ks with KNil => [] | KCons _ e r => inner_exprs e ++ inner_k r end
-with inner_c (cs : cmps) : list expr :=
-  match cs with CNil => [] | CCons _ e r => inner_exprs e ++ inner_c r end
-with inner_p (ps : parts) : list expr :=
-  match ps with PNil => [] | PLit _ r => inner_p r | PFmt e _ r => inner_exprs e ++ inner_p r end
-with inner_d (ds : dpairs) : list expr :=
-  match ds with DNil => [] | DCons k v r => inner_exprs k ++ inner_exprs v ++ inner_d r end.
+with inner_l (i : nat) (es : exprs) : list nat :=
+  match es with ENil => [] | ECons e r => inner_nodes i e ++ inner_l (i + size e) r end
+with inner_k (i : nat) (ks : kwds) : list nat :=
+  match ks with KNil => [] | KCons _ e r => inner_nodes i e ++ inner_k (i + size e) r end
+with inner_c (i : nat) (cs : cmps) : list nat :=
+  match cs with CNil => [] | CCons _ e r => inner_nodes i e ++ inner_c (i + size e) r end
+with inner_p (i : nat) (ps : parts) : list nat :=
+  match ps with PNil => [] | PLit _ r => inner_p i r | PFmt e _ r => inner_nodes i e ++ inner_p (i + size e) r end
+with inner_d (i : nat) (ds : dpairs) : list nat :=
+  match ds with DNil => [] | DCons k v r => inner_nodes i k ++ inner_nodes (i + size k) v ++ inner_d (i + size k + size v) r end.
+
+Definition fstring_nodes (body : expr) : list nat :=
+  flat_map (fun p => match snd p with EFStr ps => range (S (fst p)) (size_p ps) | _ => [] end)
+           (combine (seq 0 (size body)) (subexprs body)).
 
 (** ** The recorded map and the selection of lines *)
-Fixpoint rec_lookup (l : log) (e : expr) : option val :=
+Fixpoint rec_lookup (l : log) (i : nat) : option val :=
   match l with
   | [] => None
-  | (e', v) :: r => match rec_lookup r e with
-                    | Some w => Some w                      (* a later entry overwrites *)
-                    | None => if expr_eqb e' e then Some v else None
-                    end
+  | (j, v) :: r => match rec_lookup r i with
+                   | Some w => Some w                      (* a later entry overwrites *)
+                   | None => if Nat.eqb j i then Some v else None
+                   end
   end.
 
 Definition lines := list (string * val).
@@ -181,51 +91,55 @@ Fixpoint line_set (l : lines) (k : string) (v : val) : lines :=
 Definition line_has (l : lines) (k : string) : bool := existsb (fun p => String.eqb (fst p) k) l.
 
 Section Message.
-Variable text : expr -> string.          (* asttokens' source text of a node *)
+Variable text : nat -> string.           (* asttokens' source text of a node *)
 Variable recorded : log.                 (* [Visitor.recomputed_values] *)
 Variable tables : list env.              (* the variable look-up tables *)
 
 Definition in_tables (id : string) : bool :=
   existsb (fun t => match lookup t id with Some _ => true | None => false end) tables.
 
-Definition show (e : expr) (check_representable : bool) (key : string) (acc : lines) : lines :=
-  match rec_lookup recorded e with
+Definition show (i : nat) (check_representable : bool) (key : string) (acc : lines) : lines :=
+  match rec_lookup recorded i with
   | Some v => if negb check_representable || representable v then line_set acc key v else acc
   | None => acc
   end.
 
-Fixpoint reprs (e : expr) (acc : lines) : lines :=
+Fixpoint reprs (i : nat) (e : expr) (acc : lines) : lines :=
   match e with
   | EConst _ | EOmit => acc
-  | EName id => if in_tables id then show e true (text e) acc else acc
-  | EFStr _ => show e true (text e) acc                       (* no descent into an f-string *)
-  | EAttr e1 _ => reprs e1 (show e true (text e) acc)
-  | ENamed tg e1 => reprs e1 (show e true tg acc)
-  | ECall f xs ks => reprs_k ks (reprs_l xs (reprs f (show e false (text e) acc)))
-  | ESub a b => reprs b (reprs a (show e false (text e) acc))
+  | EName id => if in_tables id then show i true (text i) acc else acc
+  | EFStr _ => show i true (text i) acc                       (* no descent into an f-string *)
+  | EAttr e1 _ => reprs (S i) e1 (show i true (text i) acc)
+  | ENamed tg e1 => reprs (S i) e1 (show i true tg acc)
+  | ECall f xs ks =>
+      reprs_k (S i + size f + size_l xs) ks (reprs_l (S i + size f) xs (reprs (S i) f (show i false (text i) acc)))
+  | ESub a b => reprs (S i + size a) b (reprs (S i) a (show i false (text i) acc))
   | EComp k a b gs =>
-      let acc' := match k with KGen => acc | _ => show e false (text e) acc end in
-      reprs_g gs (reprs b (reprs a acc'))
-  | ESlice a b => reprs b (reprs a acc)
-  | EStar e1 => reprs e1 acc
-  | EUn _ e1 => reprs e1 acc
-  | EBin _ a b => reprs b (reprs a acc)
-  | EBool _ es => reprs_l es acc
-  | ECmp l cs => reprs_c cs (reprs l acc)
-  | EIf a b c => reprs c (reprs b (reprs a acc))
-  | EList es | ETuple es => reprs_l es acc
-  | EDict ds => reprs_d ds acc
+      let acc' := match k with KGen => acc | _ => show i false (text i) acc end in
+      reprs_g (S i + size a + size b) gs (reprs (S i + size a) b (reprs (S i) a acc'))
+  | ESlice a b => reprs (S i + size a) b (reprs (S i) a acc)
+  | EStar e1 => reprs (S i) e1 acc
+  | EUn _ e1 => reprs (S i) e1 acc
+  | EBin _ a b => reprs (S i + size a) b (reprs (S i) a acc)
+  | EBool _ es => reprs_l (S i) es acc
+  | ECmp l cs => reprs_c (S i + size l) cs (reprs (S i) l acc)
+  | EIf a b c => reprs (S i + size a + size b) c (reprs (S i + size a) b (reprs (S i) a acc))
+  | EList es | ETuple es => reprs_l (S i) es acc
+  | EDict ds => reprs_d (S i) ds acc
   end
-with reprs_l (es : exprs) (acc : lines) : lines :=
-  match es with ENil => acc | ECons e r => reprs_l r (reprs e acc) end
-with reprs_k (ks : kwds) (acc : lines) : lines :=
-  match ks with KNil => acc | KCons _ e r => reprs_k r (reprs e acc) end
-with reprs_c (cs : cmps) (acc : lines) : lines :=
-  match cs with CNil => acc | CCons _ e r => reprs_c r (reprs e acc) end
-with reprs_d (ds : dpairs) (acc : lines) : lines :=
-  match ds with DNil => acc | DCons k v r => reprs_d r (reprs v (reprs k acc)) end
-with reprs_g (gs : gens) (acc : lines) : lines :=
-  match gs with GNil => acc | GCons _ _ it ifs r => reprs_g r (reprs_l ifs (reprs it acc)) end.
+with reprs_l (i : nat) (es : exprs) (acc : lines) : lines :=
+  match es with ENil => acc | ECons e r => reprs_l (i + size e) r (reprs i e acc) end
+with reprs_k (i : nat) (ks : kwds) (acc : lines) : lines :=
+  match ks with KNil => acc | KCons _ e r => reprs_k (i + size e) r (reprs i e acc) end
+with reprs_c (i : nat) (cs : cmps) (acc : lines) : lines :=
+  match cs with CNil => acc | CCons _ e r => reprs_c (i + size e) r (reprs i e acc) end
+with reprs_d (i : nat) (ds : dpairs) (acc : lines) : lines :=
+  match ds with DNil => acc | DCons k v r => reprs_d (i + size k + size v) r (reprs (i + size k) v (reprs i k acc)) end
+with reprs_g (i : nat) (gs : gens) (acc : lines) : lines :=
+  match gs with
+  | GNil => acc
+  | GCons _ _ it ifs r => reprs_g (i + size it + size_l ifs) r (reprs_l (i + size it) ifs (reprs i it acc))
+  end.
 
 End Message.
 
@@ -247,10 +161,10 @@ Definition add_arguments (acc : lines) (selected : env) : lines :=
   fold_left (fun a p => if negb (line_has a (fst p)) && representable (snd p) then a ++ [p] else a)
             (sort_lines selected) acc.
 
-Definition value_lines (text : expr -> string) (recorded : log) (tables : list env) (body : option expr)
+Definition value_lines (text : nat -> string) (recorded : log) (tables : list env) (body : option expr)
            (kwargs : env) (cond_params : list string) : lines :=
   let sel := selected_kwargs kwargs cond_params in
-  let r := match body with Some e => reprs text recorded tables e [] | None => [] end in
+  let r := match body with Some e => reprs text recorded tables 0 e [] | None => [] end in
   sort_lines (add_arguments r sel).
 
 (** the tables handed to both visitors: the condition's own parameters, its closure, its globals *)
